@@ -635,7 +635,7 @@ def run(chk, drv):
     feats = {}
     for i in range(n):
         seed = chk.rng.getrandbits(48)
-        s = protogen.gen_schema(random.Random(seed), naming=Naming)
+        s = protogen.gen_schema(random.Random(seed), naming=Naming, index=i)
         jobs.append(("gen-%d-%d" % (chk.seed, seed), s.files))
         for k, v in s.features.items():
             feats[k] = feats.get(k, 0) + v
@@ -719,7 +719,7 @@ def search(chk):
     jobs = []
     for i in range(n):
         seed = chk.rng.getrandbits(48)
-        s = protogen.gen_schema(random.Random(seed), naming=Naming)
+        s = protogen.gen_schema(random.Random(seed), naming=Naming, index=i)
         jobs.append(("search-%d" % seed, s.files))
     jobs += corpus()
     B = 24
